@@ -347,6 +347,7 @@ func check(prop string, args []string) int {
 	}
 
 	var reports []*harnessReport
+	var repaired int64
 	vf := &vecFile{Tier: tierN}
 	for k := range known {
 		vf.Known = append(vf.Known, k)
@@ -363,6 +364,7 @@ func check(prop string, args []string) int {
 		h0 := time.Now()
 		fn := ld.pkg.Func(hn)
 		ex := vexec.Run(p, fn, prop, cfg)
+		repaired += ex.Repaired
 		rep := &harnessReport{Name: hn, Paths: ex.Paths, Decisions: ex.Decisions, Infeasible: ex.Infeasible, Abandoned: ex.Abandoned,
 			Budget: ex.Budget, Unsupported: ex.Unsupported, BoundHits: ex.BoundHits, Obligations: ex.Obligations, Instr: ex.Instr,
 			WallS: time.Since(h0).Seconds()}
@@ -558,7 +560,7 @@ func check(prop string, args []string) int {
 		"queries_discharged": map[string]int64{
 			"total": atomic.LoadInt64(&solver.Global.Queries), "sat": solver.Global.Sat, "unsat": solver.Global.Unsat,
 			"unknown": solver.Global.Unknown, "errors": solver.Global.Errors, "portfolio_runs": solver.Global.Portfolio,
-			"cross_checked_by_cvc5": solver.Global.CrossChecks, "solver_disagreements": solver.Global.Disagreements,
+			"sat_by_model_repair_without_solver": repaired, "cross_checked_by_cvc5": solver.Global.CrossChecks, "solver_disagreements": solver.Global.Disagreements,
 		},
 		"solver_time_s":             float64(solver.Global.Nanos) / 1e9,
 		"solvers":                   []string{"z3 4.8.12 (incremental, per worker)", "portfolio on unknown: cvc5 1.0.3, cvc5 --solve-bv-as-int=sum, z3 5.1.0"},
